@@ -169,7 +169,8 @@ def _intersect2d(ray1, ray2, tol):
 def _intersect3d(ray1, ray2, tol):
     # Check for colinear case
     d_cross = linalg.vector_cross(ray1.d, ray2.d)
-    if linalg.vector_is_zero(d_cross, tol):
+    d_scale = linalg.vector_magnitude(ray1.d) * linalg.vector_magnitude(ray2.d)
+    if linalg.vector_magnitude(d_cross) <= tol * d_scale:
         tmp1 = linalg.vector_sum(ray2.p, ray1.p, coeff=-1.0)
         t1 = 0.0 if abs(ray1.d[0]) < tol else tmp1[0] / ray1.d[0]
         tmp2 = linalg.vector_sum(ray1.p, ray2.p, coeff=-1.0)
@@ -195,7 +196,10 @@ def _intersect3d(ray1, ray2, tol):
     ray1_pt = ray1.eval(t1)
     ray2_pt = ray2.eval(t2)
 
-    if linalg.point_distance(ray1_pt, ray2_pt) < tol:
+    # The tolerance is relative to the magnitude of the compared points
+    pt_scale = max(linalg.vector_magnitude(ray1.p), linalg.vector_magnitude(ray2.p),
+                   linalg.vector_magnitude(ray1_pt), linalg.vector_magnitude(ray2_pt))
+    if linalg.point_distance(ray1_pt, ray2_pt) <= tol * pt_scale:
         return t1, t2, RayIntersection.INTERSECT
     else:
         return t1, t2, RayIntersection.SKEW
